@@ -125,6 +125,20 @@ def run(ctx):
             ('open', ok_open), ('open-v3', ok_open[:19] + b'\x03' + ok_open[20:]), ('open-badas', open_msg(65002, 90, [(65, struct.pack('>I', 65002))])),
             ('open-hold1', open_msg(65001, 1, [])), ('open-16', open_msg(65003, 3, [])),
             ('open-aperr', open_msg(65005, 90, [(65, struct.pack('>I', 65005)), (69, struct.pack('>HBB', 1, 1, 0))]))]
+    # OPENs whose capabilities have count / length fields at their extremes, or a four-octet capability of the wrong size: refused
+    # by the frame decoder or handled, never a panic further down (my_asn, addpath_families, ...)
+    from props import c03
+    for ln in (0, 3, 5, 8, 32):
+        wire.append(('open-cap65-len%d' % ln, open_msg(65001, 90, [(65, bytes(range(1, ln + 1)))])))
+    for ln in (3, 5):
+        wire.append(('open-cap1-len%d' % ln, open_msg(65001, 90, [(65, struct.pack('>I', 65001)), (1, bytes([0, 1, 0, 1, 9][:ln]))])))
+    for i in range(12 if quick else 200):
+        c, v = c03.adversarial_cap(rng)
+        if len(v) <= 200:
+            wire.append(('open-adv-%d-%d' % (c, i), open_msg(65001, 90, [(65, struct.pack('>I', 65001)), (c, v)])))
+    # the 'My Autonomous System' field and the four-octet capability disagree
+    wire.append(('open-as-65001-cap-65002', open_msg(65001, 90, [(65, struct.pack('>I', 65002))])))
+    wire.append(('open-as-65002-cap-65001', open_msg(65002, 90, [(65, struct.pack('>I', 65001))])))
     for code in range(8):
         for sub in (0, 1, 2, 3, 8, 11):
             for data in (b'', b'\x00\x04'):
